@@ -15,7 +15,7 @@ import (
 	"grulesim/sim/ksim"
 )
 
-// race_arm.go: the auxiliary arm of C09 (thorough tier only). It is NOT simulation: the same task
+// race_arm.go: the auxiliary arm of C09 (2 000 scenarios in the quick tier, 20 000 in the thorough tier). It is NOT simulation: the same task
 // scripts run on real goroutines in a binary built with -race; only a race-detector report or a
 // fatal "concurrent map" error counts. It adds same-value races and unsynchronised globals that
 // cannot change a result under cooperative scheduling and are therefore invisible to Sim K.
